@@ -5,7 +5,7 @@ import lww
 CONFIGS = ['prod']
 EXPLANATION = (
     'The algebraic laws themselves are NOT decided (they need evaluation of merge over all reachable sets). Decided: '
-    'clause L — in OrSWotSet::merge and NodeVersions::merge, wherever two timestamps compete for one key / one '
+    'clauses L and B — B: a timestamp written into a map slot with `insert` must have competed with what the slot held (re-insert of the looked-up value, max-join with it, or a guard against it); L — in OrSWotSet::merge and NodeVersions::merge, wherever two timestamps compete for one key / one '
     '(source, origin) stamp and one survives, the guard edge normalises to dropped <= survivor; joins use max, never min. '
     'A resolution that keeps the smaller timestamp makes a.merge(b) and b.merge(a) differ on that key, so L is necessary '
     'for commutativity.')
@@ -21,5 +21,7 @@ def check(ctx):
         return
     n1 = lww.check_bodies(ctx, facts, 'C03.L', [m], 'merge')
     ctx.floor('C03.L', 'survivor guards and joins in OrSWotSet::merge', n1, 5)
+    nb = lww.check_blind_overwrites(ctx, facts, 'C03.B', [m])
+    ctx.floor('C03.B', 'timestamp stores by insert in OrSWotSet::merge', nb, 4)
     n2 = lww.check_bodies(ctx, facts, 'C03.L', [nm], 'versions-merge')
     ctx.floor('C03.L', 'survivor guards in NodeVersions::merge', n2, 1)
